@@ -29,7 +29,7 @@ ASSUMPTIONS = ['one generator resume counts as one invocation (CPython reports c
 REQUIRE = {'openings': 1500, 'span_openings': 600, 'capture_openings': 300, 'recursive_openings': 60,
            'openings_in_threads': 40, 'exception_exits': 60,
            'withdrawn_mid_flight': 30, 'several_span_processors': 100,
-           'openings_overlapping_same_function_in_another_thread': 40, 'deep_recursion_cases': 10}
+           'openings_overlapping_same_function_in_another_thread': 40, 'deep_recursion_cases': 10, 'with_a_declining_span_processor': 30}
 
 
 def plan(tier, seed):
@@ -120,7 +120,10 @@ def case_deferred(seed, out, spec, wd, idx):
             tps.append((tp_id + 'L', 'lspan', ln, fc))
     # one to three span processors: each of them gets its own span for every hit, closed exactly once
     n_proc = r.pick([1, 1, 2, 3])
-    span_plugins = [plugins.RecSpans(), plugins.RecSpans2(), plugins.make('RecSpans3', ['span'], order=2)()][:n_proc]
+    # (a later processor may decline spans - a sampling tracer returns None - the earlier ones' spans are still closed)
+    decliner = r.chance(0.4)
+    span_plugins = [plugins.RecSpans(), plugins.make('RecSpans2', ['span_sampling' if decliner else 'span'], order=1)(),
+                    plugins.make('RecSpans3', ['span'], order=2)()][:n_proc]
     rig = Rig(custom={'APP_ROOT': sub}, host_dir=sub, plugins=span_plugins + [plugins.RecDecorator()])
     rig.install(trigs)
     if r.chance(0.2):
@@ -231,6 +234,8 @@ def case_deferred(seed, out, spec, wd, idx):
         out.count('withdrawn_mid_flight')
     if n_proc > 1:
         out.count('several_span_processors')
+        if decliner:
+            out.count('with_a_declining_span_processor')
     if exc is not None:
         out.inconc('C15 harness body raised %r' % (exc,))
         return
